@@ -152,7 +152,7 @@ impl Property for P {
     }
     fn cases(tier: Tier) -> u64 {
         match tier {
-            Tier::Quick => 700,
+            Tier::Quick => 1_200,
             Tier::Thorough => 25_000,
         }
     }
